@@ -407,6 +407,35 @@ def memo_frame(timeout_ms=None):
     allowed = {("dep_logic.markers.single:MarkerExpression.specifier", "assignment"), ("dep_logic.markers.single:MarkerExpression.from_specifier", "keyword")}
     stray = [s for s in sites if (s[0], s[1]) not in allowed]
     rep.functions["frame:view-install-sites"] = {"hash": None, "mode": "every place that sets MarkerExpression._specifier", "paths": 0, "cases": len(sites), "sites": [list(s) for s in sites]}
+    # hand-written memos / accumulators: a function that mutates a module-level (or class-level) container keeps state across calls that the
+    # read-set analysis above does not see; such a function is outside what the frame analysis decides (undecided, never a violation by itself -
+    # the cold-vs-warm differential resets these containers and reports a concrete history if the state is observable)
+    MUTATORS = {"append", "add", "update", "setdefault", "extend", "pop", "clear", "insert", "remove", "discard", "popitem"}
+    state_writes = []
+    for m in ix.modules.values():
+        containers = set()
+        for st in m.tree.body:
+            tgt = st.targets[0] if isinstance(st, _ast.Assign) and len(st.targets) == 1 else (st.target if isinstance(st, _ast.AnnAssign) else None)
+            val = getattr(st, "value", None)
+            if isinstance(tgt, _ast.Name) and val is not None and (isinstance(val, (_ast.Dict, _ast.List, _ast.Set, _ast.DictComp, _ast.ListComp, _ast.SetComp)) or
+                                                                  (isinstance(val, _ast.Call) and isinstance(val.func, _ast.Name) and val.func.id in ("dict", "list", "set", "defaultdict", "OrderedDict"))):
+                containers.add(tgt.id)
+        fs = list(m.functions.values()) + [f for c in m.classes.values() for f in c.methods.values()]
+        for f in fs:
+            local = {a.arg for a in _ast.walk(f.node) if isinstance(a, _ast.arg)} | {n.id for n in _ast.walk(f.node) if isinstance(n, _ast.Name) and isinstance(n.ctx, _ast.Store)}
+            for n in _ast.walk(f.node):
+                name = None
+                if isinstance(n, (_ast.Assign, _ast.AugAssign, _ast.Delete)):
+                    for tg in (n.targets if isinstance(n, (_ast.Assign, _ast.Delete)) else [n.target]):
+                        if isinstance(tg, _ast.Subscript) and isinstance(tg.value, _ast.Name):
+                            name = tg.value.id
+                elif isinstance(n, _ast.Call) and isinstance(n.func, _ast.Attribute) and n.func.attr in MUTATORS and isinstance(n.func.value, _ast.Name):
+                    name = n.func.value.id
+                if name and name in containers and name not in local:
+                    state_writes.append((f.qualname, name, n.lineno))
+    rep.functions["frame:module-state-writes"] = {"hash": None, "mode": "functions that mutate a module-level container", "paths": 0, "cases": len(state_writes), "sites": [list(s) for s in state_writes]}
+    rep.add("frame#C10.frame.no-hand-written-module-state", "unsat" if not state_writes else "unknown", 0.0, "ast-frame",
+            model={"sites": [list(s) for s in state_writes], "note": "outside the frame analysis: state kept in a module-level container"} if state_writes else None)
     rep.add("frame#C10.frame.view-installed-only-by-accessor-or-from_specifier", "unsat" if not stray else "sat", 0.0, "ast-frame", model={"sites": [list(s) for s in stray]} if stray else None)
     return rep
 
